@@ -187,9 +187,120 @@ func TestVerifC16(t *testing.T) {
 		}
 		wg.Wait()
 	}
+	// real-time sessions (no testNowMS): the sender's own clock and timers drive the session
+	if r.Begin(10_000, "real-time sessions") {
+		var wg sync.WaitGroup
+		for k, c := range []struct {
+			cfg      string
+			duration int
+			streams  bool
+		}{{"", 4, false}, {"segtimeline_1", 6, true}, {"snr_3", 2, false}}[:r.Pick(1, 3)] {
+			wg.Add(1)
+			go func(k int, cfg string, duration int, streams bool) {
+				defer wg.Done()
+				vfC16RealTime(r, s, cfg, duration, streams, k)
+			}(k, c.cfg, c.duration, c.streams)
+		}
+		wg.Wait()
+	}
 	if r.NViolations() > 0 {
 		t.Fail()
 	}
+}
+
+// vfC16RealTime runs one session of testpic_2s on the wall clock. Judged without any clock: per endpoint the init first, then
+// duration/2 media segments with consecutive numbers, the last one marked, each with the samples livesim2 serves for that number,
+// and silence afterwards. Waiting is bounded by watchdogs whose firing is inconclusive.
+func vfC16RealTime(r *rep.R, s *Server, cfg string, duration int, streams bool, k int) {
+	rc := vfNewScriptedRecv()
+	defer rc.srv.Close()
+	url := "/livesim2/"
+	if cfg != "" {
+		url += cfg + "/"
+	}
+	url += "testpic_2s/Manifest.mpd"
+	destName := fmt.Sprintf("rt%d", k)
+	jb, _ := json.Marshal(map[string]any{"destRoot": rc.srv.URL, "destName": destName, "livesimURL": url, "duration": duration, "streamsURLs": streams})
+	det := func(what string) map[string]any { return map[string]any{"session": string(jb), "what": what} }
+	resp := vfDo(s, "POST", "/api/cmaf-ingests", bytes.NewReader(jb), map[string]string{"Content-Type": "application/json"})
+	r.Eval(1)
+	if resp.Code != 201 {
+		r.Violation(fmt.Sprintf("real-time:session-create-status-%d", resp.Code), det(vfTrunc(resp.Body, 200)))
+		return
+	}
+	wantMedia := duration / 2
+	eps := []string{"V300", "A48"}
+	want := len(eps) * (1 + wantMedia)
+	if !rc.waitFor(func(l []vfPut) bool { return len(l) >= want }, time.Duration(duration+15)*time.Second) {
+		r.Inconclusive("real-time:puts-did-not-arrive-in-time")
+		return
+	}
+	time.Sleep(2500 * time.Millisecond) // more than one segment duration: an ended session stays silent
+	log := rc.snapshot()
+	if len(log) != want {
+		r.Violation("real-time:session-continues-after-duration", det(fmt.Sprintf("%d PUTs, expected %d (= %d endpoints x (init + %d media))", len(log), want, len(eps), wantMedia)))
+		return
+	}
+	byEp := map[string][]vfPut{}
+	for _, p := range log {
+		m := vfEndpointRe.FindStringSubmatch(p.path)
+		if m == nil || m[1] != destName {
+			r.Violation("real-time:put-to-unexpected-path", det(p.path))
+			return
+		}
+		byEp[m[2]+m[4]] = append(byEp[m[2]+m[4]], p)
+	}
+	first := int64(-1)
+	for _, ep := range eps {
+		puts := byEp[ep]
+		if len(puts) != 1+wantMedia || !bytes.Contains(puts[0].body, []byte("moov")) {
+			r.Violation("real-time:endpoint-requests", det(fmt.Sprintf("%s: %d requests, init first=%v", ep, len(puts), len(puts) > 0 && bytes.Contains(puts[0].body, []byte("moov")))))
+			return
+		}
+		for i, p := range puts[1:] {
+			ps, err := ora.ParseSegment(p.body, nil)
+			if err != nil {
+				r.Violation("real-time:media-put-unparseable", det(p.path))
+				return
+			}
+			if first < 0 {
+				first = int64(ps.Seq)
+			}
+			if int64(ps.Seq) != first+int64(i) {
+				r.Violation("real-time:media-sequence", det(fmt.Sprintf("%s request %d carries number %d, expected %d", ep, i+1, ps.Seq, first+int64(i))))
+				return
+			}
+			// what livesim2 serves for that number, long after it became available
+			mu := fmt.Sprintf("%s/%d.m4s", ep, ps.Seq)
+			if strings.Contains(cfg, "segtimeline_1") {
+				mu = fmt.Sprintf("%s/%d.m4s", ep, ps.Tfdt)
+			}
+			gr := vfGet(s, vfURL(cfg, "testpic_2s", mu, time.Now().UnixMilli()+5000))
+			r.Eval(1)
+			gs, err := ora.ParseSegment(gr.Body, nil)
+			if gr.Code != 200 || err != nil {
+				r.Inconclusive("real-time:reference-segment-not-served")
+				continue
+			}
+			same := gs.Seq == ps.Seq && gs.Tfdt == ps.Tfdt && len(gs.Samples) == len(ps.Samples)
+			for j := 0; same && j < len(gs.Samples); j++ {
+				same = gs.Samples[j] == ps.Samples[j]
+			}
+			if !same {
+				r.Violation("real-time:media-body-differs-from-what-livesim2-serves", det(fmt.Sprintf("%s vs GET %s", p.path, mu)))
+				return
+			}
+			hasLmsg := false
+			for _, b := range ps.Brands {
+				hasLmsg = hasLmsg || b == "lmsg"
+			}
+			if hasLmsg != (i == wantMedia-1) {
+				r.Violation("real-time:last-segment-marking", det(fmt.Sprintf("%s request %d of %d: lmsg=%v", ep, i+1, wantMedia, hasLmsg)))
+				return
+			}
+		}
+	}
+	r.Class(fmt.Sprintf("real-time|%s|duration=%d|streams=%v", cfg, duration, streams))
 }
 
 func vfC16Session(r *rep.R, s *Server, a *ora.Asset, c vfSessCfg, ci int) {
